@@ -1,5 +1,6 @@
 // Native-only bounded harnesses: registry (compiled only outside Kani; see lib.rs)
 pub mod native_misc;
+pub mod native_enum256;
 pub mod native_abi;
 pub mod native_schemacodec;
 #[cfg(feature = "xnative")]
@@ -79,6 +80,8 @@ fn native_misc_registry0() -> Vec<(&'static str, fn(&mut crate::src::EnumSrc))> 
         ("nmal_bitvec", (|s: &mut crate::src::EnumSrc| crate::collections::mal_bitvec_all(s)) as fn(&mut crate::src::EnumSrc)),
         // n(nschema_library2, "C12", "hand-written WithSchema impls: Rc, Arc, Cow, BinaryHeap, HashSet, char, atomics, Range, SystemTime, IpAddr, PathBuf, 1-tuples, Cell, RefCell, Mutex, Arc<str>, Arc<[T]>, Box<[T]>, ArrayVec, ArrayString, SmallVec, IndexMap, IndexSet, nested Option, nested arrays, HashMap, i128, f64, isize, Canary1, PhantomData", "34 type shapes, one small-scope byte varied");
         ("nschema_library2", (|s: &mut crate::src::EnumSrc| crate::native_misc::schema_library2(s)) as fn(&mut crate::src::EnumSrc)),
+        // n(nevo_enum256, "C03,C02", "derive(Savefile) discriminant width rule (get_enum_size) with a versioned 256th variant; derive Deserialize / WithSchema for enums; Deserializer::load_impl", "3 variants x with/without schema");
+        ("nevo_enum256", (|s: &mut crate::src::EnumSrc| crate::native_misc::evolve_enum256(s)) as fn(&mut crate::src::EnumSrc)),
         // n(pairs_diff, "C05,C13,C15", "diff_schema; diff_enum; diff_fields; diff_primitive", "pairs of one-variant enums with <= 2 primitive fields; discriminants/widths from small domains");
         ("pairs_diff", (|s: &mut crate::src::EnumSrc| crate::schemapairs::diff_pairs(s)) as fn(&mut crate::src::EnumSrc)),
         // n(pairs_layout, "C11", "Schema::layout_compatible; SchemaEnum/Variant/Field::layout_compatible", "pairs of one-variant enums with <= 2 primitive fields, two offsets");
